@@ -545,6 +545,13 @@ def _cat(xs):
     return ('cat', tuple((x[1][0] if x[0] in ('list', 'tuple') and len(x[1]) == 1 and x[1][0][0] != 'star' else x) for x in xs))
 
 
+def _known_scalar(t):
+    """An integer scalar by its form: an end point of a span of util.partition, a length."""
+    if t[0] == 'elem' and t[1][0] == 'call' and t[1][1] == G('cooler.util.partition') and len(t) > 3 and t[3] in ((0,), (1,)):
+        return True
+    return t[0] == 'call' and t[1] == G('len')
+
+
 def sub(base, index):
     if base == G('np.r_'):
         xs = index[1] if index[0] == 'tuple' else (index,)
@@ -558,6 +565,16 @@ def sub(base, index):
         for kv in base[1]:
             if kv[0] == 'kv' and kv[1] == index:
                 return kv[2]
+    # selecting from `offset + array` with a mask / index array:  (lo + i)[m]  is  lo + i[m]  when lo is a scalar - the
+    # start of a row span (an item of util.partition) or an integer constant; the other summands are the arrays
+    if base[0] == 'lin' and index[0] not in ('c', 'slice') and len(base[2]) >= 2:
+        scal = [li for li in base[2] if _known_scalar(li[1])]
+        arrs = [li for li in base[2] if not _known_scalar(li[1])]
+        if scal and arrs:
+            d = {li[1]: li[2] for li in scal}
+            for li in arrs:
+                d[sub(li[1], index)] = d.get(sub(li[1], index), 0) + li[2]
+            return _from_lin(base[1], d)
     # a constant selector distributes over a conditional:  (a if c else b)[0]  ==  a[0] if c else b[0]
     if base[0] == 'ite' and index[0] == 'c':
         return ite(base[1], sub(base[2], index), sub(base[3], index))
